@@ -213,6 +213,10 @@ def main():
         L.append('  | %d => k get_%s put_%s eta_%s' % (leaf['addr'], lb, lb, lb))
     L.append('  end.')
     L.append('Definition shadow_addrs : list N := [%s].' % '; '.join(str(l['addr']) for l in meta['leaves']))
+    # pure functions whose first argument is one of the configuration records: unfolding them on an explicit record exposes a projection
+    rec_names = set(records)
+    cfg_fns = [f['name'] for f in fns if f['kind'] == 'Pure' and f['params'] and f['params'][0][1] in rec_names]
+    L.append('Ltac unfold_cfg_fns := cbv beta iota delta [%s].' % ' '.join(cfg_fns))
     txt = '\n'.join(L) + '\n'
     lens_path = os.path.join(os.path.dirname(sys.argv[3]), 'GenLens.v')
     if _changed(lens_path, txt):
